@@ -2,7 +2,7 @@
 import json
 
 ID = "C11"
-HARNESS_TEST = "TestC11"
+HARNESS_TEST = "TestC11.*"
 COQ_MODEL = ["C11/Check.v"]
 COQ_PROOF_DEPS = ["C11/Proofs.v", "C11/Examples.v"]
 COQ_OBLIG = ["C11/Property.v"]
@@ -64,8 +64,18 @@ def _obs(op, o):
     return "ob %s %s %s %s %s %s" % (_b(o["acc"]), r, prev, votes, feed, _z(o["vp"]))
 
 
+def _ops(rec):
+    """message-level records carry their ops in the input; tx-level records list the delivered ops (with the real
+    heights and the signing key) next to the observations"""
+    return rec["obs"].get("ops") or rec["input"].get("ops", [])
+
+
 def _msg(op, o):
     k = op["kind"]
+    if "signer" in op and k in ("prevote", "vote", "delegate"):
+        named = _aid(op, "val") if k == "delegate" else _aid(op, "feeder")
+        if int(op["signer"]) != named:
+            return "Malformed"  # signed by somebody else than the feeder / operator it names: never reaches the handler
     if k == "prevote":
         return "Prevote %d %d %d %s" % (_aid(op, "feeder"), _aid(op, "val"), o["hash_id"], _b(o["hex_ok"]))
     if k == "vote":
@@ -87,7 +97,7 @@ def to_coq_case(rec):
     status = list(obs["init"]["status"])
     steps, table, seen = [], [], set()
     signers_ok = True
-    for op, o in zip(inp["ops"], obs["steps"]):
+    for op, o in zip(_ops(rec), obs["steps"]):
         h = _z(op.get("h", 0))
         ob = _obs(op, o)
         signers_ok = signers_ok and o.get("signer_ok", True)
@@ -115,23 +125,28 @@ MECH = {"period", "hash", "feeder", "notactive", "noprevote", "unknownpair"}
 def nontrivial(rec):
     acc = False
     rej = False
-    for op, o in zip(rec["input"]["ops"], rec["obs"]["steps"]):
+    for op, o in zip(_ops(rec), rec["obs"]["steps"]):
         if op["kind"] == "vote":
             if o["acc"]:
                 acc = True
-            elif o["reason"] in MECH:
+            elif o["reason"] in MECH or "signer" in op:
                 rej = True
     return acc and rej
 
 
 def classify(rec):
     inp = rec["input"]
-    ks = ["vp0=%d" % inp["vp0"], "nvals=%d" % inp["nvals"], "events=%d0s" % (len(inp["ops"]) // 10)]
+    ops = _ops(rec)
+    ks = ["level:" + ("tx" if inp.get("mode") == "tx" else "msg"), "vp0=%d" % inp["vp0"], "nvals=%d" % inp["nvals"],
+          "events=%d0s" % (len(ops) // 10)]
     deleg = {}
     former = {}
-    for op, o in zip(inp["ops"], rec["obs"]["steps"]):
+    for op, o in zip(ops, rec["obs"]["steps"]):
         k = op["kind"]
         ks.append("op:" + k)
+        if "signer" in op and k != "end":
+            named = _aid(op, "val") if k == "delegate" else _aid(op, "feeder")
+            ks.append("tx-signed-by:%s:%s" % ("named" if int(op["signer"]) == named else "other", "ok" if o["acc"] else "refused"))
         if k in ("prevote", "vote"):
             ks.append("%s:%s" % (k, o["reason"]))
             f, v = _aid(op, "feeder"), _aid(op, "val")
@@ -153,15 +168,15 @@ def classify(rec):
 
 
 def describe(rec):
-    return {"input": rec["input"], "observed": [
+    return {"input": rec["input"], "delivered_ops": rec["obs"].get("ops"), "observed": [
         {"acc": o["acc"], "reason": o["reason"], "prev": o["prev"], "votes": o["votes"], "feed": o["feed"], "vp": o["vp"]}
         for o in rec["obs"]["steps"]]}
 
 
 def signature(rec):
-    kinds = sorted({op["kind"] for op in rec["input"]["ops"]})
+    kinds = sorted({op["kind"] for op in _ops(rec)})
     bad = []
-    for op, o in zip(rec["input"]["ops"], rec["obs"]["steps"]):
+    for op, o in zip(_ops(rec), rec["obs"]["steps"]):
         if op["kind"] == "vote" and o["acc"]:
             bad.append("vote-accepted")
             break
@@ -169,11 +184,21 @@ def signature(rec):
 
 
 def input_size(inp):
+    if inp.get("mode") == "tx":
+        return sum(len(b) for b in inp["blocks"]) + len(inp["blocks"])
     return len(inp["ops"])
 
 
 def shrink_candidates(inp):
     out = []
+    if inp.get("mode") == "tx":
+        bl = inp["blocks"]
+        for i in range(len(bl)):
+            if len(bl) > 1:
+                out.append(dict(inp, blocks=bl[:i] + bl[i + 1:]))
+            for j in range(len(bl[i])):
+                out.append(dict(inp, blocks=bl[:i] + [bl[i][:j] + bl[i][j + 1:]] + bl[i + 1:]))
+        return out
     ops = inp["ops"]
     n = len(ops)
     # halves first, then single removals
